@@ -167,6 +167,9 @@ def getattr_(interp, v, attr, node=None):
             raise Unsupported(f"dict.{attr}")
         raise Raised('AttributeError', ln, f"'dict' object has no attribute '{attr}'", implicit=True)
     if isinstance(v, SetV):
+        if getattr(v, 'frozen', False) and attr in ('add', 'remove', 'discard', 'pop', 'clear', 'update', 'difference_update',
+                                                    'intersection_update', 'symmetric_difference_update'):
+            raise Raised('AttributeError', ln, f"'frozenset' object has no attribute '{attr}'", implicit=True)
         if attr in SET_METHODS:
             return BoundV(v, BuiltinV('set.' + attr, SET_IMPL[attr]))
         if hasattr(set, attr):
@@ -242,6 +245,12 @@ def setattr_(interp, o, attr, value, node=None):
 
 def record_write(interp, o, field, ln):
     fresh_ = getattr(o, 'fresh', True)
+    if not fresh_ and isinstance(field, str) and field.startswith('_') and not field.startswith('__'):
+        # a private attribute (memo field) is not part of the observable state C04 names (name, contents, volume, capacity,
+        # instructions, wells): storing into it is not a frame write.  What a memo could make observable — an observer
+        # that answers for other contents than its object's — is the business of the observers[...] obligations (C10).
+        interp.__dict__.setdefault('private_writes', []).append((o, field, ln))
+        return
     if not fresh_:
         interp.writes.append((o, field, ln, interp.call_stack[-1] if interp.call_stack else '?'))
 
@@ -908,6 +917,17 @@ def b_set(interp, args, kwargs, node):
     return make_set(interp, iterate(interp, args[0], node))
 
 
+def b_frozenset(interp, args, kwargs, node):
+    """frozenset(x): the same elements as set(x), a new immutable object (its mutators do not exist)"""
+    r = b_set(interp, args, kwargs, node)
+    if isinstance(r, SetV):
+        r.frozen = True
+        return r
+    if hasattr(r, 'sym_freeze'):
+        return r.sym_freeze(interp)
+    raise Unsupported(f"frozenset of {type(r).__name__}")
+
+
 def b_zip(interp, args, kwargs, node):
     lists = [iterate(interp, a, node) for a in args]
     return [tuple(x) for x in zip(*lists)]
@@ -1168,7 +1188,7 @@ def b_sorted(interp, args, kwargs, node):
 
 def call_type(interp, T, args, kwargs, node):
     fn = {'str': b_str, 'int': b_int, 'float': b_float, 'list': b_list, 'tuple': b_tuple, 'dict': b_dict,
-          'set': b_set, 'slice': b_slice, 'bool': lambda i, a, k, n: i.truth(a[0]) if a else False}.get(T.name)
+          'set': b_set, 'frozenset': b_frozenset, 'slice': b_slice, 'bool': lambda i, a, k, n: i.truth(a[0]) if a else False}.get(T.name)
     if fn is None:
         raise Unsupported(f"call of type {T.name}")
     return fn(interp, args, kwargs, node)
